@@ -38,9 +38,14 @@ where
     }
 
     pub fn with_key(key: Keypair, behaviour: impl FnOnce(&Keypair) -> B, knobs: &Knobs) -> Self {
+        Self::on(|idx, _| SimTransport { node: idx }.boxed(), key, behaviour, knobs)
+    }
+
+    /// Over any transport (E2-full: real noise + muxer over simulated pipes).
+    pub fn on(transport: impl FnOnce(usize, &Keypair) -> libp2p_core::transport::Boxed<(PeerId, libp2p_core::muxing::StreamMuxerBox)>, key: Keypair, behaviour: impl FnOnce(&Keypair) -> B, knobs: &Knobs) -> Self {
         let peer = key.public().to_peer_id();
         let idx = net::add_node(peer);
-        let transport = SimTransport { node: idx }.boxed();
+        let transport = transport(idx, &key);
         let swarm = Swarm::new(transport, behaviour(&key), peer, knobs.config(idx));
         let swarm = Rc::new(RefCell::new(swarm));
         let events: Rc<RefCell<Vec<(u64, Duration, SwarmEvent<B::ToSwarm>)>>> = Default::default();
